@@ -273,17 +273,15 @@ def edits_block_trim(b, toks):
     for k, s, e in toks:
         if k == "block":
             c = block_content(b, s, e)
-            if c and (c[:1] in WS or c[-1:] in WS) and not re.match(rb'^["\\\\]+[ \t\r\n]', c):
+            if c and (c[:1] in WS or c[-1:] in WS):
                 out.append((s, e, b'"""s"""'))
     return out
 
 
-def edits_block_offset(b, toks):
-    out = []
-    for k, s, e in toks:
-        if k == "block" and re.match(rb'^["\\\\]+[ \t\r\n]', block_content(b, s, e)):
-            out.append((s, e, b'"""s"""'))
-    return out
+def edits_anonymous_query_description(b, toks):
+    """a description in front of an unnamed `query {`: give the query a name"""
+    return [(toks[i + 1][2], toks[i + 1][2], b" Qx") for i in range(len(toks) - 2)
+            if toks[i][0] in ("str", "block") and toks[i + 1][0] == "name" and tok_is(b, toks[i + 1], b"query") and tok_is(b, toks[i + 2], b"{")]
 
 
 def tok_is(b, t, s):
@@ -314,10 +312,18 @@ def edits_schema_description(b, toks):
             and (i == 0 or not tok_is(b, toks[i - 1], b":"))]
 
 
+def edits_shorthand_after_braceless_definition(b, toks):
+    """an unnamed `query {` right after a type-system definition that did not end with `}`: give the query a name"""
+    return [(toks[i][2], toks[i][2], b" Qx") for i in range(1, len(toks) - 1)
+            if toks[i][0] == "name" and tok_is(b, toks[i], b"query") and tok_is(b, toks[i + 1], b"{")
+            and toks[i - 1][0] not in ("str", "block") and not tok_is(b, toks[i - 1], b"}")]
+
+
 CAUSES = [
-    ("rt:block-string:offset-after-leading-quote-or-backslash", edits_block_offset),
     ("rt:block-string:surrounding-whitespace-trimmed", edits_block_trim),
     ("rt:operation:anonymous-query-with-directives", edits_anonymous_query_directives),
+    ("rt:operation:anonymous-query-with-description", edits_anonymous_query_description),
+    ("rt:mixed:shorthand-query-after-braceless-type-definition", edits_shorthand_after_braceless_definition),
     ("rt:type-system:extension-implements-dropped", edits_extension_implements),
     ("rt:type-system:schema-description-dropped", edits_schema_description),
 ]
@@ -370,6 +376,33 @@ class Judge:
 
     def limits(self, doc, L, F, syntactic):
         self.pending_limits.append((doc, L, F, syntactic))
+
+    def value_changed(self, doc, info):
+        """PrintPreservesValue is false for one literal (judged by TLC with the character-level model): the printed document
+        spells a string / description whose value differs from the original's.  The key names the construct and what the raw
+        content looks like, so that each way of losing characters is a finding of its own."""
+        src = info["src"]
+        blk = src.startswith('"""')
+        raw = src[3:-3] if blk else src[1:-1]
+        where = "description" if info["desc"] else "value"
+        if not blk:
+            cls = "ordinary-string"
+        else:
+            lines = re.split(r"\r\n|\n|\r", raw)
+            first, last = lines[0], lines[-1]
+            feats = []
+            if first.strip(" \t") and first[:1] in " \t":
+                feats.append("first-line-indentation")
+            if last.strip(" \t") and last[-1:] in " \t":
+                feats.append("trailing-blanks-of-last-line")
+            if len(lines) > 1 and not feats:
+                feats.append("indentation-of-later-lines")
+            cls = "block-string:" + ("+".join(feats) or "other")
+        key = "value:%s:%s" % (where, cls)
+        self.report(key, "printing (%s) changes the value of the %s %r: the printed document has %r in its place: %s" % (
+            info["mode"], "description" if where == "description" else "string literal", src, info["out"], doc["text"][:160]),
+            {"kind": "value", "text": doc["text"], "toks": doc["toks"], "depth": doc["depth"], "idepth": doc["idepth"], "fields": doc["fields"],
+             "nmut": doc["nmut"], "tok": info["tok"], "mode": info["mode"], "detail": "%r -> %r" % (src, info["out"])})
 
     def flush_limits(self):
         """Accepted over-limit documents.  The key is decided by counterfactuals on the real code: the same document
@@ -530,6 +563,13 @@ def generate(ctx, quick):
         dict(spec_dirs="core", module="Gen_GQLGrammarSDL", cfg="Gen_GQLGrammarSDL_bfs.cfg", timeout=3000, deadlock=False, workers=2, tag="mc+gen-sdl-bfs"),
         dict(spec_dirs="core", module="Gen_GQLGrammarSDL", cfg="Gen_GQLGrammarSDL_sim.cfg", timeout=3000, deadlock=False, workers=1,
              simulate=600 if quick else 8000, depth=20, seed=ctx.seed, tag="gen-sdl-simulate"),
+        # string literals and descriptions from the character-level model (GQLLiteral), every position
+        dict(spec_dirs="core", module="Gen_GQLGrammarLit", cfg="Gen_GQLGrammarLit_bfs%s.cfg" % sfx, timeout=3000, deadlock=False, workers=2, tag="mc+gen-lit-bfs"),
+        dict(spec_dirs="core", module="Gen_GQLGrammarLit", cfg="Gen_GQLGrammarLit_sim.cfg", timeout=3000, deadlock=False, workers=1,
+             simulate=500 if quick else 6000, depth=5, seed=ctx.seed, tag="gen-lit-simulate"),
+        # documents mixing executable and type-system definitions
+        dict(spec_dirs="core", module="Gen_GQLGrammarMixed", cfg="Gen_GQLGrammarMixed_sim.cfg", timeout=3000, deadlock=False, workers=1,
+             simulate=900 if quick else 10000, depth=200, seed=ctx.seed, tag="gen-mixed-simulate"),
     ]
     if not quick:
         jobs.append(dict(spec_dirs="core", module="MC_GQLGrammar", cfg="MC_GQLGrammar_pinned_shape.cfg", timeout=1800, deadlock=False, workers=2,
@@ -538,12 +578,13 @@ def generate(ctx, quick):
     consts = next((x for x in must(res[0], "constants").printed if isinstance(x, dict) and "alphabet" in x), None)
     if not consts:
         raise lib.Inconclusive("the specification's constants were not printed")
-    for r in [res[1]] + res[8:]:
+    for r in [res[1]] + res[11:]:
         if r.violated != "AccountingSoundPinned":
             raise lib.Inconclusive("sanity: the model of the token accounting as pinned should violate AccountingSoundPinned, got %r" % r.error)
     docs, runs = [], []
     for tag, r, exhaustive in (("bfs", res[2], True), ("shape", res[3], True), ("sim", res[4], False), ("sim-wide", res[5], False),
-                               ("sdl-bfs", res[6], True), ("sdl-sim", res[7], False)):
+                               ("sdl-bfs", res[6], True), ("sdl-sim", res[7], False), ("lit-bfs", res[8], True), ("lit-sim", res[9], False),
+                               ("mixed-sim", res[10], False)):
         must(r, "generator " + tag)
         ds = [d for d in r.printed if isinstance(d, dict) and "toks" in d]
         for d in ds:
@@ -577,17 +618,17 @@ def validate(ctx, trace):
         jobs.append(dict(spec_dirs="core", module="Trace_GQLGrammar", cfg="Trace_GQLGrammar.cfg", workers=1, env={"TRACE": tp}, timeout=3000,
                          deadlock=False, count=False, tag="trace-validation-%d" % k, heap="4g"))
     res = tlc_parallel(ctx, jobs, width=4)
-    unsound, disagree = [], []
+    unsound, disagree, valuediff = [], [], []
     for off, v in zip(offs, res):
         if not v.ok:
             stuck = [x for x in v.out.splitlines() if "TRACE_STUCK_AT_LINE" in x]
             print(v.out[-2500:])
             raise lib.Inconclusive("observations are not bound to the specification (%s) — harness/model problem, not a verdict" % (stuck[:1] or v.error))
         for x in v.printed:
-            if isinstance(x, dict) and x.get("k") in ("unsound", "disagree"):
+            if isinstance(x, dict) and x.get("k") in ("unsound", "disagree", "valuediff"):
                 x["line"] += off          # 1-based line in the whole trace
-                (unsound if x["k"] == "unsound" else disagree).append(x)
-    return unsound, disagree
+                {"unsound": unsound, "disagree": disagree, "valuediff": valuediff}[x["k"]].append(x)
+    return unsound, disagree, valuediff
 
 
 def run(ctx):
@@ -612,10 +653,18 @@ def run(ctx):
     for i, d in enumerate(docs):
         d["id"] = "%s-%06d" % (d["src"], i)
         lims = sorted({(p["l"], p["f"]) for p in d["lims"]})
-        # quick tier: the long simulated documents get their mutants for a seed-selected third only
-        mut = not (quick and d["src"] in ("sim", "sim-wide", "sdl-sim") and (i + ctx.seed) % 3 != 0)
-        cases.append({"id": d["id"], "kind": "doc", "toks": [t["s"] for t in d["toks"]], "gq": "s" if d["src"].startswith("sdl") else "q",
-                      "lims": [list(p) for p in lims], "mut": mut, "variants": 3})
+        roles = {t["r"] for t in d["toks"]}
+        has_sdl, has_exec = "sdl" in roles, bool(roles & {"kw_op", "kw_frag", "sh_open"})
+        d["family"] = "mixed" if has_sdl and has_exec else "sdl" if has_sdl else "exec"
+        d["strings"] = [j for j, t in enumerate(d["toks"]) if t["s"].startswith('"')]
+        # quick tier: the long simulated documents get their mutants for a seed-selected third only, the literal-centred ones none
+        mut = not (quick and (d["src"] in ("lit-bfs", "lit-sim") or (d["src"] in ("sim", "sim-wide", "sdl-sim", "mixed-sim") and (i + ctx.seed) % 3 != 0)))
+        case = {"id": d["id"], "kind": "doc", "toks": [t["s"] for t in d["toks"]], "gq": {"exec": "q", "sdl": "s", "mixed": ""}[d["family"]],
+                "lims": [list(p) for p in lims], "mut": mut, "variants": 3, "lit": bool(d["strings"])}
+        if d["family"] == "exec" and "desc" in roles:
+            # the independent parser predates descriptions of executable definitions: it reads the document without them
+            case["gqtext"] = " ".join(t["s"] for t in d["toks"] if t["r"] != "desc")
+        cases.append(case)
     from concurrent.futures import ThreadPoolExecutor
     maxlen = 4 if quick else 5
     depths = [1000, 100000] if quick else [1000, 100000, 1000000, 3000000]
@@ -653,7 +702,7 @@ def run(ctx):
 
     # ---- 3. Go-side judgements ---------------------------------------------------------------------
     stats = {"accepted": 0, "valid_rejected": 0, "gq_rejected": 0, "mutants": 0, "mutants_accepted": 0, "variants": 0, "lim_obs": 0,
-             "rt_ok": 0, "overcount_rejections": 0, "model_stats_match": 0, "model_stats_match_repaired": 0, "model_stats_differ": 0}
+             "rt_ok": 0, "overcount_rejections": 0, "model_stats_match": 0, "model_stats_match_repaired": 0, "model_stats_differ": 0, "lit_obs": 0}
     rejected_samples = []
     trace = []
     line_of = {}
@@ -664,14 +713,14 @@ def run(ctx):
         b = o["base"]
         if o["text"] != d["text"]:
             raise lib.Inconclusive("driver spelled %r, the specification %r" % (o["text"][:100], d["text"][:100]))
-        if o["gq"] == "err" and d["src"].startswith("sdl"):
+        if o["gq"] == "err" and d["family"] == "sdl":
             # gqlparser v2.5.30 lags behind the October 2021 type-system grammar in places (e.g. `extend interface I implements J`)
             stats["gq_rejected"] += 1
             if stats["gq_rejected"] <= 3:
                 ctx.notes.append("independent parser rejects a generated type-system document: %s (%s)" % (d["text"][:120], o["gqMsg"][:100]))
         elif o["gq"] == "err":
             raise lib.Inconclusive("model problem: the independent parser rejects a generated document: %s (%s)" % (d["text"][:200], o["gqMsg"][:160]))
-        if o["gq"] == "ok" and not d["src"].startswith("sdl") and (o["gqF"], o["gqD"]) != (d["fields"], d["depth"]):
+        if o["gq"] == "ok" and d["family"] == "exec" and (o["gqF"], o["gqD"]) != (d["fields"], d["depth"]):
             raise lib.Inconclusive("model problem: the specification computes fields=%d depth=%d, the independent parser sees %d/%d for %s" % (
                 d["fields"], d["depth"], o["gqF"], o["gqD"], d["text"][:200]))
         cl = None
@@ -703,6 +752,31 @@ def run(ctx):
         trace.append({"k": "doc", "toks": d["toks"], "text": o["text"], "depth": d["depth"], "idepth": d["idepth"], "fields": d["fields"],
                       "nmut": d["nmut"], "nmutSeen": o["nmut"], "acc": b["acc"], "astF": b["astF"], "astD": b["astD"]})
         line_of[len(trace)] = (i, None)
+        if d["strings"] and b["acc"] and (b["rt"] == "ok" or "shape-diff" in b["rt"] or "fixed-point" in b["rt"]):
+            # what the printer made of every string literal / description, judged by value (PrintPreservesValue)
+            seen_lit = set()
+            for mode, printed in (("compact", b["print"]), ("indent", b["printI"])):
+                pb = printed.encode()
+                outs = [(k, pb[s0:e0]) for k, s0, e0 in lex(pb) if k in ("str", "block")]
+                if len(outs) != len(d["strings"]):
+                    continue        # a literal was dropped or added: that is a shape difference, reported as such
+                for j, (k, ob) in zip(d["strings"], outs):
+                    sp = d["toks"][j]["s"]
+                    blk = sp.startswith('"""')
+                    src = sp[3:-3] if blk else sp[1:-1]
+                    oblk = k == "block"
+                    out = (ob[3:-3] if oblk else ob[1:-1]).decode("utf-8", "replace")
+                    sig = (blk, src, oblk, out)
+                    if sig in seen_lit:
+                        continue
+                    seen_lit.add(sig)
+                    trace.append({"k": "lit", "tok": j + 1, "len": len(sp), "blk": blk, "src": [ord(c) for c in src], "oblk": oblk,
+                                  "out": [ord(c) for c in out]})
+                    prev = d["toks"][j - 1]["s"] if j > 0 else ""
+                    role = d["toks"][j]["r"]
+                    isdesc = role == "desc" or (role == "sdl" and prev not in (":", "=", "[") and not prev.startswith('"'))
+                    line_of[len(trace)] = (i, {"mode": mode, "tok": j, "src": sp, "out": ob.decode("utf-8", "replace"), "desc": isdesc})
+                    stats["lit_obs"] += 1
         for lr in o["lims"]:
             if lr["panic"]:
                 judge.failure("generated (ParseWithLimits %d/%d)" % (lr["L"], lr["F"]), d["text"].encode(), "panic", lr["panic"])
@@ -711,7 +785,7 @@ def run(ctx):
             stats["lim_obs"] += 1
             if not lr["acc"] and b["acc"] and not ((lr["L"] > 0 and d["idepth"] > lr["L"]) or (lr["F"] > 0 and d["fields"] > lr["F"])):
                 stats["overcount_rejections"] += 1
-            if lr["L"] == 0 and lr["F"] == 0 and lr["acc"] and not d["src"].startswith("sdl"):
+            if lr["L"] == 0 and lr["F"] == 0 and lr["acc"] and d["family"] == "exec":
                 if lr["statF"] == d.get("implFx"):
                     stats["model_stats_match_repaired"] += 1
                 elif lr["statF"] == d["implF"]:
@@ -779,7 +853,10 @@ def run(ctx):
     judge.flush()
 
     # ---- 6. TLC validation -------------------------------------------------------------------------
-    unsound, disagree = validate(ctx, trace)
+    unsound, disagree, valuediff = validate(ctx, trace)
+    for u in valuediff:
+        i, info = line_of[u["line"]]
+        judge.value_changed(docs[i], info)
     seen = set()
     for u in unsound:
         i, lr = line_of[u["line"]]
@@ -860,6 +937,34 @@ def replay(ctx, binary):
             print("NOT REPRODUCED: ParseWithLimits(%d,%d) accepted=%s satisfies LimitsSound" % (lr["L"], lr["F"], lr["acc"]))
         else:
             raise lib.Inconclusive("replay validation failed: %s" % v.error)
+    elif case["kind"] == "value":
+        recs, _ = run_driver(ctx, binary, [{"id": "replay", "kind": "text", "b64": b64(case["text"]), "lit": True}], "replay")
+        b = recs[0]["base"]
+        sp = case["toks"][case["tok"]]["s"]
+        strings = [j for j, t in enumerate(case["toks"]) if t["s"].startswith('"')]
+        pb = (b["print"] if case["mode"] == "compact" else b["printI"]).encode()
+        outs = [(k, pb[s0:e0]) for k, s0, e0 in lex(pb) if k in ("str", "block")]
+        if not b["acc"] or len(outs) != len(strings):
+            print("NOT REPRODUCED as a value change: accepted=%s, %d literals printed for %d" % (b["acc"], len(outs), len(strings)))
+        else:
+            k, ob = outs[strings.index(case["tok"])]
+            blk, oblk = sp.startswith('"""'), k == "block"
+            src = sp[3:-3] if blk else sp[1:-1]
+            out = (ob[3:-3] if oblk else ob[1:-1]).decode("utf-8", "replace")
+            trace = [{"k": "doc", "toks": case["toks"], "text": case["text"], "depth": case["depth"], "idepth": case["idepth"], "fields": case["fields"],
+                      "nmut": case["nmut"], "nmutSeen": 0, "acc": True, "astF": b["astF"], "astD": b["astD"]},
+                     {"k": "lit", "tok": case["tok"] + 1, "len": len(sp), "blk": blk, "src": [ord(c) for c in src], "oblk": oblk, "out": [ord(c) for c in out]},
+                     {"k": "end"}]
+            tp = ctx.path("replay-trace.ndjson")
+            lib.write_ndjson(tp, trace)
+            v = ctx.tlc("core", "Trace_GQLGrammar", "Trace_GQLGrammar_strict.cfg", workers=1, env={"TRACE": tp}, timeout=600, deadlock=False, count=False,
+                        tag="replay-strict")
+            if v.violated == "PrintPreservesValue":
+                ctx.violation(key, "reproduced: " + rp["what"], case)
+            elif v.ok:
+                print("NOT REPRODUCED: the printed literal %r denotes the same value as %r" % (ob.decode("utf-8", "replace"), sp))
+            else:
+                raise lib.Inconclusive("replay validation failed: %s" % v.error)
     elif case["kind"] == "text":
         recs, inc = run_driver(ctx, binary, [{"id": "replay", "kind": "text", "b64": case["b64"]}], "replay")
         if inc:
